@@ -46,6 +46,9 @@ pub struct Graph {
     /// an effectively unbounded counter tail (used for timeout scenarios).
     #[serde(default)]
     pub tail: bool,
+    /// `format_step` returns `None` for some real transitions (legal: it is only a rendering).
+    #[serde(default)]
+    pub mute_steps: bool,
 }
 
 impl Graph {
@@ -137,6 +140,12 @@ impl Model for GModel {
     fn next_state(&self, s: &u16, a: u16) -> Option<u16> {
         self.maybe_panic(PanicSite::NextState(*s));
         self.g.edges_at(*s).get(a as usize).cloned().flatten()
+    }
+    fn format_step(&self, s: &u16, a: u16) -> Option<String> {
+        if self.g.mute_steps && (*s + a) % 2 == 0 {
+            return None;
+        }
+        self.next_state(s, a).map(|n| format!("{:#?}", n))
     }
     fn within_boundary(&self, s: &u16) -> bool {
         self.maybe_panic(PanicSite::Boundary(*s));
@@ -293,7 +302,7 @@ pub fn gen_graph(rng: &mut Rng, o: &GenOpts) -> Graph {
             props.insert(i, p);
         }
     }
-    Graph { shape: shape.to_string(), n, inits, edges, boundary, props, panic: None, tail: false }
+    Graph { shape: shape.to_string(), n, inits, edges, boundary, props, panic: None, tail: false, mute_steps: false }
 }
 
 /// Independent single-threaded analysis of a graph. No stateright code involved.
